@@ -370,13 +370,14 @@ def Ast.toMan : Ast → Except PyErr (List ManNode)
     if cs.isEmpty || cs.all Ast.isArgOrId then .ok []
     else
       let names := targetNames cs
-      match names.getLast? with
-      | none => .error .indexError                   -- names[-1] on an empty list
-      | some last =>
-        let names := if last.isTextEl then names.dropLast else names
-        match toManL cs with
-        | .error e => .error e
-        | .ok k => .ok [.node .paragraph (names ++ [.node .indent k])]
+      -- `if names and names[-1].element is TEXT: names.pop()` (a target without identifier used to raise IndexError
+      -- here: fix 018a2ec)
+      let names := match names.getLast? with
+        | none => names
+        | some last => if last.isTextEl then names.dropLast else names
+      match toManL cs with
+      | .error e => .error e
+      | .ok k => .ok [.node .paragraph (names ++ [.node .indent k])]
   | .targetId _ => .ok []
   | .dirArg _ => .ok []
   | .reference uri cs =>
